@@ -41,8 +41,9 @@ klass('WorkFuture', {}, lib=True, bases=['Future'])
 klass('Work', {'fut': KRef('WorkFuture')}, lib=True)
 klass('dtype', {}, lib=True)
 klass('device', {}, lib=True)
-LIB_CLASS_ALIASES.update({'Tensor': 'Tensor', 'Future': 'Future'})
-MODULE_NAMES.update({'torch.futures', 'torch._C'})
+klass('GradScaler', {}, lib=True)
+LIB_CLASS_ALIASES.update({'Tensor': 'Tensor', 'Future': 'Future', 'GradScaler': 'GradScaler', 'ProcessGroup': 'ProcessGroup'})
+MODULE_NAMES.update({'torch.futures', 'torch._C', 'torch.cuda', 'torch.cuda.amp'})
 
 R, I, M = z3.RealSort(), z3.IntSort(), MatS
 LS = KShape.sort()
@@ -90,7 +91,10 @@ def new_tensor(eng, st, val, shape: V, dtype, device, sid=None, contig=True, gra
 
 
 def tf(eng, st, t, name):
-    return eng.read_field(st, t, name, cls='Tensor')
+    v = eng.read_field(st, t, name, cls='Tensor')
+    if name in ('dtype', 'device'):
+        eng.fact(st, z3.Implies(t.term != 0, v.term != 0))      # every tensor has a dtype and a device
+    return v
 
 
 def tv(eng, st, t):
@@ -322,6 +326,8 @@ def tensor_binop(eng, st, op, a, b):
             raise Unsupported(f'tensor {op} tensor')
         va, vb = tv(eng, st, a), tv(eng, st, b)
         val = mf(name, M, M, M)(va, vb)
+        da, db = tf(eng, st, a, 'dtype').term, tf(eng, st, b, 'dtype').term
+        pdt = V(KDType, z3.If(da == db, da, mf('promote', I, I, I)(da, db)))     # torch type promotion
         if op == 'MatMult':
             sh = shape_list(eng, [dim(eng, st, a, 0), dim(eng, st, b, 1)])
         else:
@@ -329,7 +335,7 @@ def tensor_binop(eng, st, op, a, b):
             na = ListOps(KShape).len(sh.term)
             nb = ListOps(KShape).len(tf(eng, st, b, 'shape').term)
             sh = V(KShape, z3.If(na >= nb, sh.term, tf(eng, st, b, 'shape').term))
-        return like(eng, st, a, val, shape=sh)
+        return like(eng, st, a, val, shape=sh, dtype=pdt)
     t, s, left = (a, b, False) if ta else (b, a, True)     # left: scalar on the left
     _, _, sr = eng.num_parts(s, st)
     v = tv(eng, st, t)
